@@ -87,7 +87,9 @@ fn run(rng: &mut Rng, idx: u64, tier: Tier) -> CaseOut {
     }
     let net = crate::net::gen_net(rng, &nopts);
     let world = World::from_net(net, rng, 10, 128);
-    if world.valid_colours() == world.cs.colours.len() {
+    // one case in three: the graph passed in admits only a subset of the valid colours (custom unit set)
+    let restrict = rng.chance(1, 3) && !world.cs.bits.is_empty();
+    if !restrict && world.valid_colours() == world.cs.colours.len() {
         // trivial unit set: what the repository's own tests already use
         let mut out = CaseOut::new("unconstrained".to_string());
         out.count("skipped_unconstrained_network");
@@ -149,21 +151,53 @@ fn run(rng: &mut Rng, idx: u64, tier: Tier) -> CaseOut {
         _ => gen_formula(rng, &fopts, &world.net.names),
     };
     let k = f.quant_depth() as u16 + rng.below(3) as u16;
-    let sys = match build(&world, k) {
-        Ok(s) => s,
-        Err(e) => return discard(&world, &e),
+    let mut restriction: Option<String> = None;
+    let sys = if restrict {
+        match crate::libg::guarded(|| crate::libg::build_sys_colour_restricted(&world.net, k, &world.cs.bits, rng)) {
+            Ok(Ok(Some((s, what)))) => {
+                restriction = Some(what);
+                s
+            }
+            Ok(Ok(None)) => match build(&world, k) {
+                Ok(s) => s,
+                Err(e) => return discard(&world, &e),
+            },
+            Ok(Err(e)) => return discard(&world, &e),
+            Err(p) => return discard(&world, &format!("PANIC {p}")),
+        }
+    } else {
+        match build(&world, k) {
+            Ok(s) => s,
+            Err(e) => return discard(&world, &e),
+        }
     };
     let text = f.canon();
-    let mut out = CaseOut::new(format!("{}|{}|{}", world.net.to_aeon(), text, extended));
+    let mut out = CaseOut::new(format!("{}|{}|{}|{:?}", world.net.to_aeon(), text, extended, restriction));
+    if restriction.is_some() {
+        out.count("graphs_with_restricted_colours");
+    }
+    // the unit set of the graph passed in, expressed in the canonical encoding (by lib-param-bn's transfer)
+    let canon_unit_of_graph = {
+        let cctx = sys.canon_graph.symbolic_context();
+        match cctx.transfer_from(sys.graph.unit_colored_vertices().as_bdd(), sys.graph.symbolic_context()) {
+            Some(b) => biodivine_lib_param_bn::symbolic_async_graph::GraphColoredVertices::new(b, cctx),
+            None => sys.canon_graph.mk_unit_colored_vertices(),
+        }
+    };
     out.count(&root_name(&f));
     count_ops(&mut out, &f);
     hooks_on();
-    let ctx = lib_context(&world, &sys, &sets);
+    let ctx: biodivine_hctl_model_checker::evaluation::LabelToSetMap = if restriction.is_some() {
+        // context sets are sets of the graph passed in: cut them to its (restricted) unit set
+        sets.iter().map(|(k, v)| (k.clone(), crate::libg::explicit_to_set(&sys, &world.cs, v).intersect(sys.graph.unit_colored_vertices()))).collect()
+    } else {
+        lib_context(&world, &sys, &sets)
+    };
     let eps: Vec<Ep> = if extended { EXT_EPS.to_vec() } else { PLAIN_EPS.to_vec() };
     let mut nonempty = false;
     for ep in eps {
         let (unit, graph_name) = if ep.sanitized() {
-            (sys.canon_graph.unit_colored_vertices(), "SymbolicAsyncGraph::new(bn)")
+            (&canon_unit_of_graph, if restriction.is_some() { "the graph passed in (canonical encoding)" } else { "SymbolicAsyncGraph::new(bn)" })
         } else {
             (sys.graph.unit_colored_vertices(), "the graph passed in")
         };
@@ -193,6 +227,7 @@ fn run(rng: &mut Rng, idx: u64, tier: Tier) -> CaseOut {
                     ("entry_point", J::s(ep.name())),
                     ("context_sets", sets_json(&world, &sets)),
                     ("why", J::s(why)),
+                    ("colour_restriction_of_the_graph", J::s(restriction.as_deref().unwrap_or("none"))),
                     ("result_cardinality", J::Num(set.approx_cardinality())),
                     ("result_colours", J::Num(set.colors().approx_cardinality())),
                     ("unit_cardinality", J::Num(unit.approx_cardinality())),
@@ -226,7 +261,7 @@ fn run(rng: &mut Rng, idx: u64, tier: Tier) -> CaseOut {
     drain_events(&mut out);
     out.nontrivial = nonempty;
     if out.nontrivial {
-        out.sample = Some(case_json(&world, &[text], vec![("context_sets", sets_json(&world, &sets)), ("verdict", J::s("held"))]));
+        out.sample = Some(case_json(&world, &[text], vec![("context_sets", sets_json(&world, &sets)), ("colour_restriction", J::s(restriction.as_deref().unwrap_or("none"))), ("verdict", J::s("held"))]));
     }
     out
 }
